@@ -48,11 +48,15 @@ def gen_programs(rng, pairs_everywhere):
     shared_children = rng.random() < 0.5
     programs, tids = [], []
     kernel_thread = rng.randrange(nthreads) if rng.random() < 0.35 else None
+    colliding = rng.choice([x for x in range(nthreads) if x != kernel_thread]) if rng.random() < 0.35 else None
     for t in range(nthreads):
         tid = 10 + t
         keyspace = {'tid': tid, 'pid': 100 * (t + 1), 'sid': 1000 * (t + 1)}
         if t == kernel_thread:
             keyspace['pid'] = 0      # pid 0 is the kernel's: kernel threads are announced and named with it
+        if t == colliding:
+            # pids and thread ids share a number range: this thread's pid equals another traced thread's id
+            keyspace['pid'] = 10 + (t + 1) % nthreads
         if shared_children:
             # several threads announce / sample the same child thread ids (the tid->pid table is shared by design and
             # read only by decoders whose text is the carve-out); the pids they name stay disjoint
@@ -93,6 +97,13 @@ def gen_programs(rng, pairs_everywhere):
         o = rng.choice([x for x in range(nthreads) if x != t])
         if len(programs[o]) < 10:
             programs[o].insert(rng.randrange(len(programs[o]) + 1), H.thd_data(pid, child))
+    if colliding is not None:
+        victim = (colliding + 1) % nthreads
+        if len(programs[colliding]) < 10:
+            programs[colliding].insert(rng.randrange(len(programs[colliding]) + 1),
+                                       H.A('TRACE_DATA_THREAD_TERMINATE_PID', H.NONE, (10 + victim, 9, 0, 0)))
+        if not any(a[0] in ('TRACE_DATA_NEWTHREAD', 'TRACE_DATA_EXEC') for a in programs[victim]) and len(programs[victim]) < 9:
+            programs[victim] = programs[victim] + H.exec_pair(100 * (victim + 1), b'image-of-%d' % victim)
     if kernel_thread is not None:
         # the kernel thread announces a child under pid 0 while another thread's sampler / new-thread record maps the
         # kernel thread itself to that other thread's (non-zero) pid
